@@ -402,6 +402,69 @@ class PostInit(Harness):
         return (st["H"].verify(PW, _known()["md5_crypt"]), st["ctx"].verify(PW, _known()["sha256_crypt"]))
 
 
+class PurePython(Harness):
+    """after initialisation: two threads hashing DIFFERENT passwords through the pure-python primitives
+    (built-in MD4, DES, scrypt, salsa) must not disturb each other (no shared scratch state)"""
+
+    name = "pure_python"
+
+    def __init__(self, ops):
+        self.ops = ops
+
+    def codes(self):
+        import passlib.crypto._md4 as M
+        import passlib.crypto.des as D
+        import passlib.crypto.scrypt._builtin as SB
+        import passlib.crypto.scrypt._salsa as SS
+
+        return [M, D, SB, SS]
+
+    def fresh(self):
+        return {}
+
+    def body(self, st, op):
+        kind, _, pw = op.partition(":")
+        if kind == "md4":
+            from passlib.crypto._md4 import md4
+
+            return lambda: md4(pw.encode() * 9).hexdigest()
+        if kind == "md4split":
+            from passlib.crypto._md4 import md4
+
+            def f():
+                h = md4(pw.encode() * 3)
+                h.update(pw.encode() * 25)
+                g = h.copy()
+                g.update(b"tail")
+                return h.hexdigest() + g.hexdigest()
+
+            return f
+        if kind == "des":
+            from passlib.crypto.des import des_encrypt_int_block
+
+            key = int.from_bytes((pw.encode() * 8)[:8], "big")
+            return lambda: des_encrypt_int_block(key, 0x0123456789ABCDEF, salt=0x00A5F1, rounds=2)
+        if kind == "desblock":
+            from passlib.crypto.des import des_encrypt_block
+
+            return lambda: des_encrypt_block((pw.encode() * 7)[:7], b"KGS!@#$%").hex()
+        if kind == "scrypt":
+            from passlib.crypto.scrypt._builtin import ScryptEngine
+
+            return lambda: ScryptEngine.execute(pw.encode(), b"salt" + pw.encode(), 2, 1, 1, 16).hex()
+        if kind == "scrypt2":
+            from passlib.crypto.scrypt._builtin import ScryptEngine
+
+            return lambda: ScryptEngine.execute(pw.encode(), b"NaCl", 4, 2, 2, 24).hex()
+        raise KeyError(op)
+
+    def post(self, st):
+        from passlib.crypto._md4 import md4
+        from passlib.crypto.des import des_encrypt_int_block
+
+        return (md4(b"abc").hexdigest(), des_encrypt_int_block(0x0101010101010101, 0))
+
+
 def make_harness(spec):
     kind, ops = spec["harness"], tuple(spec["ops"])
     if kind == "lazy_context":
@@ -418,6 +481,8 @@ def make_harness(spec):
         return ContextRecords(ops)
     if kind == "post_init":
         return PostInit(ops)
+    if kind == "pure_python":
+        return PurePython(ops)
     raise core.HarnessError(f"unknown harness {kind}")
 
 
@@ -570,6 +635,15 @@ def harness_specs(quick):
         add(f"backend_{hn}", ("hash", "verify"), b2)
         add(f"backend_{hn}", ("verify", "has_backend"), b2)
     add("backend_bcrypt", ("hash", "verify"), 1)
+    add("pure_python", ("md4:a", "md4:b"), 1)
+    add("pure_python", ("md4split:a", "md4split:bb"), 1)
+    add("pure_python", ("scrypt:a", "scrypt:b"), 1)
+    add("pure_python", ("desblock:a", "desblock:b"), 1)
+    if not quick:
+        add("pure_python", ("des:a", "des:b"), 1)
+        add("pure_python", ("scrypt2:a", "scrypt2:b"), 1)
+        add("pure_python", ("md4:a", "md4:b"), 2)
+        add("pure_python", ("scrypt:a", "md4:b", "desblock:c"), 1)
     if not quick:
         add("lazy_context", ("hash", "verify", "identify"), 2)
         add("lazy_context_onload", ("hash", "verify", "identify"), 2)
